@@ -275,3 +275,10 @@ Theorem endian_swap_involutive :
   (forall v, (v < 2 ^ 64)%N -> swap64 (swap64 v) = v).
 Proof. exact (conj swap16_involutive_l (conj swap32_involutive_l swap64_involutive_l)). Qed.
 Print Assumptions endian_swap_involutive.
+
+(* the swap macros are functions into [0, 2^n) for EVERY argument: no bit above n-1 survives, so the
+   value does not depend on the integer type in which the macro's result is consumed *)
+Theorem endian_swap_range :
+  (forall v, (swap16 v < 2 ^ 16)%N) /\ (forall v, (swap32 v < 2 ^ 32)%N) /\ (forall v, (swap64 v < 2 ^ 64)%N).
+Proof. exact (conj swap16_range_l (conj swap32_range_l swap64_range_l)). Qed.
+Print Assumptions endian_swap_range.
